@@ -1067,8 +1067,6 @@ func (e *c34Env) analyse(fam, format string, s *PkgSpec, data []byte, res *c34Re
 				why = "skipped-format-" + en.Format
 			case len(en.PAX) > 0 && en.Format != "PAX":
 				why = "skipped-records-outside-pax"
-			case len(en.Name) > 100 || len(en.Linkname) > 100:
-				why = "skipped-long-name"
 			case len(en.Uname) > 32 || len(en.Gname) > 32:
 				why = "skipped-long-owner"
 			case en.Mode < 0 || en.Uid < 0 || en.Gid < 0 || en.MTime < 0 || en.Size < 0 || strings.ContainsRune(en.Name, 0):
@@ -1077,15 +1075,46 @@ func (e *c34Env) analyse(fam, format string, s *PkgSpec, data []byte, res *c34Re
 				why = "skipped-number-beyond-octal-field"
 			case en.Mode >= 1<<56 || int64(en.Uid) >= 1<<56 || int64(en.Gid) >= 1<<56:
 				why = "skipped-number-beyond-binary-field"
-			case en.Format != "GNU" && !(c34ASCII(en.Name) && c34ASCII(en.Linkname) && c34ASCII(en.Uname) && c34ASCII(en.Gname)):
-				why = "skipped-non-ascii-name"
+			case en.Format != "GNU" && !(c34ASCII(en.Uname) && c34ASCII(en.Gname)):
+				why = "skipped-non-ascii-owner"
 			}
-			// records that replace a header field (path, linkpath, size, owner, times) make the main header a cut or
-			// transliterated copy of what the reader reports: outside the model
+			// a name / link name travels in a `path` / `linkpath` record when the header field cannot hold it; without
+			// the record it must fit the field (GNU long-name members and the USTAR prefix field are outside the model)
+			fieldOK := func(val, key string) string {
+				rec, has := en.PAX[key]
+				switch {
+				case has && rec != val:
+					return "skipped-record-differs-from-reported-value"
+				case has:
+					a := make([]byte, 0, len(val))
+					for i := 0; i < len(val); i++ {
+						if val[i] < 0x80 {
+							a = append(a, val[i])
+						}
+					}
+					if len(a) > 100 && a[99] == '/' {
+						return "skipped-name-cut-at-a-slash"
+					}
+					return ""
+				case len(val) > 100:
+					return "skipped-long-name"
+				case en.Format != "GNU" && !c34ASCII(val):
+					return "skipped-non-ascii-name"
+				}
+				return ""
+			}
+			if why == "" {
+				why = fieldOK(en.Name, "path")
+			}
+			if why == "" {
+				why = fieldOK(en.Linkname, "linkpath")
+			}
+			// records that replace another header field (size, owner, times) make the main header differ from what the
+			// reader reports: outside the model
 			keys := make([]string, 0, len(en.PAX))
 			for k := range en.PAX {
 				switch k {
-				case "path", "linkpath", "size", "uid", "gid", "uname", "gname", "mtime", "atime", "ctime":
+				case "size", "uid", "gid", "uname", "gname", "mtime", "atime", "ctime":
 					if why == "" {
 						why = "skipped-pax-record-replaces-header-field"
 					}
